@@ -14,6 +14,7 @@ import c05_oracle as O
 
 _CAP = []
 _INSTALLED = [False]
+_CAPTURE_ON = [True]
 FINDING15 = 'parse_table_line:noletter-exponent-abuts-on-layout-line'
 ABSENT_FIRST = 'read_tables:TOUGH2:table-absent-at-first-time'
 NEG2 = 'start_of_values:fixed-point-first-number-then-signed-number'
@@ -34,6 +35,7 @@ def install_capture():
     def wrap(cls, name):
         orig = getattr(cls, name)
         def w(self, *a, **k):
+            if not _CAPTURE_ON[0]: return orig(self, *a, **k)
             try: r = orig(self, *a, **k)
             except Exception as e:
                 _CAP.append((name, self, a, k, ('raise', type(e).__name__)))
@@ -333,6 +335,11 @@ def process(job):
         cases_from_capture(list(_CAP), seen, res['cases'], stats, only)
         del _CAP[:]
         table_names = list(lst.table_names)
+        # ---- every result time, however it is reached ---------------------------------
+        if job.get('routes', True) and snap:
+            _CAPTURE_ON[0] = False
+            try: check_routes(lst, snap, times, fail, stats, job)
+            finally: _CAPTURE_ON[0] = True
         lst.close()
         # ---- every subset of skipped tables leaves the others identical ---------------
         nsk = job.get('skips', 0)
@@ -372,6 +379,86 @@ def process(job):
     finally:
         del _CAP[:]
         if tmpdir: shutil.rmtree(tmpdir, ignore_errors=True)
+
+
+def apply_route(lst, ops):
+    for op in ops:
+        if op[0] == 'index': lst.index = op[1]
+        elif op[0] == 'first': lst.first()
+        elif op[0] == 'last': lst.last()
+        elif op[0] == 'next': lst.next()
+        elif op[0] == 'prev': lst.prev()
+        elif op[0] == 'time': lst.time = op[1]
+        elif op[0] == 'step': lst.step = op[1]
+
+
+def routes_to(ti, n, ft, fs):
+    """ways of reaching result time ti other than `index = ti`: [(kind, ops)].  Each starts from another
+    position (so that a table the move fails to re-read is seen to hold the other position's numbers)."""
+    away = [('index', (ti + 1) % n)] if n > 1 else []
+    far = [('index', 0 if ti else n - 1)] if n > 1 else []
+    out = [('negative-index', far + [('index', ti - n)])]
+    if ti == n - 1:
+        out.append(('last', [('first',), ('last',)]))
+        out.append(('time-past-end', [('first',), ('time', 2.0 * abs(ft[-1]) + 1.0)]))
+        out.append(('step-past-end', [('first',), ('step', int(fs[-1]) + 1)]))
+    if ti == 0:
+        out.append(('first', [('last',), ('first',)]))
+        out.append(('time-before-start', [('last',), ('time', ft[0] - abs(ft[0]) - 1.0)]))
+        out.append(('step-before-start', [('last',), ('step', int(fs[0]) - 1)]))
+    out.append(('time', away + [('time', ft[ti])]))
+    out.append(('step', away + [('step', int(fs[ti]))]))
+    if ti > 0: out.append(('next', [('index', ti - 1), ('next',)]))
+    if ti < n - 1: out.append(('prev', [('index', ti + 1), ('prev',)]))
+    return out
+
+
+def check_routes(lst, snap, times, fail, stats, job):
+    """The statement is about every result time, not about `index = i`: whichever way the reader is moved to a
+    result time (negative index, first/last, next/prev, time and step setters incl. values outside the range),
+    its tables must hold the numbers printed for the result time it says it is at.  snap[i] = the tables after
+    `index = i`, which check_table has compared with the printed numbers."""
+    n = lst.num_fulltimes
+    ft = [float(x) for x in lst.fulltimes]; fs = [int(x) for x in lst.fullsteps]
+    for ti in sorted(snap):
+        for kind, ops in routes_to(ti, n, ft, fs):
+            stats['routes'] = stats.get('routes', 0) + 1
+            stats['route_' + kind] = stats.get('route_' + kind, 0) + 1
+            ops_j = [list(o) for o in ops]
+            try: apply_route(lst, ops)
+            except Exception as e:
+                known = any(absent_at_first(job, times[t]) for t in range(min(len(times), n)))
+                fail('navigation', ABSENT_FIRST if known else 'set_index:%s:raises:%s' % (kind, type(e).__name__),
+                     {'time': ti, 'route': ops_j}, repr(e)[:200], 'no exception')
+                continue
+            at = lst.index
+            if not isinstance(at, (int, np.integer)) or at not in snap:
+                if not (isinstance(at, (int, np.integer)) and 0 <= at < n):
+                    fail('navigation', 'set_index:%s:index-out-of-range' % kind, {'time': ti, 'route': ops_j}, repr(at), '0 <= index < %d' % n)
+                continue
+            at = int(at)
+            for tn in lst.table_names:
+                if tn not in snap[at]: continue
+                rows0, data0 = snap[at][tn]
+                T = lst._table[tn]
+                stats['route_table_comparisons'] = stats.get('route_table_comparisons', 0) + 1
+                if list(T.row_name) == rows0 and T._data.shape == data0.shape and np.array_equal(T._data, data0, equal_nan=True): continue
+                cell, got, want = None, None, None
+                if T._data.shape == data0.shape:
+                    d = np.argwhere(~((T._data == data0) | (np.isnan(T._data) & np.isnan(data0))))
+                    if len(d):
+                        i, j = int(d[0][0]), int(d[0][1])
+                        cell = [rows0[i] if i < len(rows0) else i, T.column_name[j]]
+                        got, want = float(T._data[i, j]), float(data0[i, j])
+                known = False                                 # a table the reader never reads at this result time
+                if at < len(times) and absent_at_first(job, times[at]):
+                    want_cols = ''.join(T.column_name).replace(' ', '')
+                    cands = [q for q in times[at] if ''.join(q.cols) == want_cols]
+                    known = len(cands) != 1 or absent_at_first(job, times[at], cands[0])
+                fail('navigation', ABSENT_FIRST if known else 'set_index:%s:table-not-the-printed-numbers' % kind,
+                     {'time': at, 'route': ops_j, 'table': tn, 'cell': cell},
+                     'after %s the reader is at index %d and %s%s = %r' % (ops_j, at, tn, cell, got),
+                     'the number printed for that result time (read after `index = %d`): %r' % (at, want))
 
 
 def absent_at_first(job, ptabs, upto=None):
